@@ -298,7 +298,8 @@ def install(L):
             elif k == 'local':
                 live[k] = [np.array(p, copy=True).tolist() for p in v]
             elif k == 'best_tree':
-                live[k] = ('tree', id(v))
+                import treeutil as _T
+                live[k] = ('tree', _T.canon(v), [np.array(n.value, copy=True).tolist() for n in _T.walk(v)[0] if n.value is not None])
             else:
                 live[k] = ('other',)
         o_dump(self, **kw)
@@ -433,7 +434,8 @@ def build_task(L, cfg, events):
                             n_iterations=cfg['n_iter'], min_depth=cfg['min_depth'], max_depth=cfg['max_depth'],
                             functions=list(cfg['functions']), lower_bound=list(cfg['lb']),
                             upper_bound=list(cfg['ub']))
-    opt = L['kinds'][kind](hyperparams=dict(cfg['hyper']))
+    # no dictionary at all when the configuration has none: that is how users build a default optimiser
+    opt = L['kinds'][kind](hyperparams=dict(cfg['hyper'])) if cfg['hyper'] else L['kinds'][kind]()
     box_ub = [1.0] * cfg['n_vars'] if cfg['space'] == 'hyper' else cfg['ub']
     if cfg['objective'] == 'weighted':
         f1 = make_objective('sphere', np, box_ub, cfg['rettype'])
